@@ -40,10 +40,28 @@ def junk_text(draw):
 # ---------------------------------------------------------------- (a) command lines
 @st.composite
 def btcdeb_cmd(draw):
-    kind = draw(st.sampled_from(['script', 'script', 'script-z', 'script-junk', 'spend', 'spend-mutated', 'spend-witshape', 'spend-witshape', 'spend-shapes', 'spend-shapes', 'p2sh-plain', 'tx-only', 'options', 'select', 'stdin-edge', 'inline']))
+    kind = draw(st.sampled_from(['script', 'script', 'script-z', 'script-junk', 'spend', 'spend-mutated', 'spend-witshape', 'spend-witshape', 'spend-shapes', 'spend-shapes', 'p2sh-plain', 'tx-only', 'options', 'select', 'stdin-edge', 'inline', 'spend-hashtype']))
     argv, stdin = [], b''
     comp = kind
-    if kind == 'inline':
+    if kind == 'spend-hashtype':
+        # an ECDSA signature whose hash type byte is one of the unusual ones (0x00, 0x04, 0x80, 0x84, 0xff ...), with STRICTENC off so that it reaches the
+        # signature hash and its logging
+        rnd = draw(st.randoms(use_true_random=False))
+        c = S.build(rnd, draw(st.sampled_from(['p2pkh', 'p2pk', 'p2wpkh', 'p2sh-p2wpkh', 'multisig'])), ninputs=1)
+        ht = draw(st.sampled_from([0x00, 0x04, 0x80, 0x84, 0xff, 0x1f, 0x20, 0x44]))
+        vin = c['tx'].vin[c['idx']]
+        if vin['wit']:
+            vin['wit'][0] = vin['wit'][0][:-1] + bytes([ht])
+        else:
+            ops = R.decode(vin['script'])
+            first = next(e for e in ops if e[1] and len(e[1]) > 60)
+            pos = vin['script'].index(first[1])
+            vin['script'] = vin['script'][:pos + len(first[1]) - 1] + bytes([ht]) + vin['script'][pos + len(first[1]):]
+        argv += ['--tx=' + c['tx'].ser().hex(), '--txin=' + c['fund'].ser().hex(), '--modify-flags=' + draw(st.sampled_from(['-STRICTENC', '-STRICTENC,-NULLFAIL', '-STRICTENC,-DERSIG,-LOW_S']))]
+        if draw(st.booleans()):
+            argv += ['--debug=' + draw(st.sampled_from(['sign', 'signing', 'sighash', 'sighash,signing', 'all']))]
+        stdin = b'\n'
+    elif kind == 'inline':
         # inline function expressions as the script (stdin or argv), inside a bracketed script, as stack arguments and in the --pretend-valid list
         e = draw(inline_expr())
         where = draw(st.sampled_from(['stdin', 'argv', 'bracket', 'stack', 'pretend']))
@@ -248,6 +266,9 @@ def tap_cmd(draw):
         k = draw(st.integers(0, nin - 1))
         tx.vin[k]['txid'] = fund.txid()
         tx.vin[k]['n'] = draw(st.sampled_from([0, 0, 0, 1, 5]))
+        # the spending input as it arrives: normally empty (tap fills it in), but also with a scriptSig / witness already present
+        tx.vin[k]['script'] = draw(st.sampled_from([b'', b'', b'', b'\x51', b'\x00', b'\x16' + bytes(22), b'\x4c', b'\x22' + b'\x51\x20' + bytes(32)]))
+        tx.vin[k]['wit'] = draw(st.sampled_from([[], [], [], [b'\x01'], [b''], [bytes(64)], [b'\x50'], [bytes(64), b'\x50\x01'], [b'\x01', sc, bytes([0xc0 | par]) + KEY_X]]))
         tx.vout = [dict(value=1, spk=b'\x51')] * draw(st.integers(0, 2))
         argv = ['--tx=' + tx.ser().hex(), '--txin=' + fund.ser().hex(), KEY_X.hex(), '1', '0x' + sc.hex()]
         if draw(st.booleans()):
@@ -551,7 +572,16 @@ def w_valgrind(ctx, wid, seed, examples):
     def collect(c):
         cases.append(c)
     collect()
-    for c in cases:
+    # directed cases memcheck sees in every run (uninitialised reads are invisible to the sanitizer build): unusual hash types reaching the signature hash
+    directed = []
+
+    @settings(max_examples=4, database=None, deadline=None, suppress_health_check=list(HealthCheck), phases=[Phase.generate], verbosity=hypothesis.Verbosity.quiet)
+    @hypothesis.seed(seed + 1)
+    @given(btcdeb_cmd().filter(lambda c: c['component'] == 'spend-hashtype'))
+    def collect2(c):
+        directed.append(c)
+    collect2()
+    for c in directed + cases:
         if sum(len(a) for a in c['argv']) > 20000 or any('\x00' in a for a in c['argv']) or c['component'] in ('btcc:deep', 'btcc:long'):
             continue
         exe = cli.binpath(c['tool'], 'plain')
